@@ -445,6 +445,33 @@ def semHandle (st : DState) (ws : List String) : Option String :=
             some s!"ok {if b.isEmpty then "-" else hexOf b} bad={bad} wire={k} spec={verdict.replace " " "_"}"
     | none, _, _, _ => some "nokey"
     | _, _, _, _ => some "bad-op"
+  | ["genmin", key, tries] =>
+    match st.corpus.get? key, tries.toNat? with
+    | some (_, c), some tries =>
+      match Sem.firstPrim c with
+      | some p => some s!"unsupported {p}"
+      | none =>
+        let best := (List.range tries).foldl (fun (acc : Option (List UInt8)) seed =>
+          match Sem.genContainer c (seed * 2654435761 + 17) 0 with
+          | none => acc
+          | some vs => match Sem.encode c vs with
+            | none => acc
+            | some b => match acc with
+              | some a => if b.length < a.length then some b else acc
+              | none => some b) none
+        match best with
+        | some b => some s!"ok {if b.isEmpty then "-" else hexOf b}"
+        | none => some "genfail"
+    | none, _ => some "nokey"
+    | _, _ => some "bad-op"
+  | ["bounds", key] =>
+    match st.corpus.get? key with
+    | some (_, c) => match Sem.firstPrim c with
+      | some p => some s!"unsupported {p}"
+      | none =>
+        let b := Sem.bounds {} c
+        some s!"lo={b.lo} hi={match b.hi with | some h => toString h | none => "inf"} fixed={match Sem.fixedMs c with | some n => toString n | none => "no"}"
+    | none => some "nokey"
   | ["fixed", key] =>
     match st.corpus.get? key with
     | some (_, c) => match Sem.firstPrim c with
